@@ -188,3 +188,16 @@ seed('c03-freememory-dangling', 'C03', [(LLB, "    delete LPAstarApx_;\n    LPAs
 seed('c03-pis-clear-keeps-count', 'C03', [(PLNC, "    addedStartStates_ = 0;\n    sampledGoalsCount_ = 0;\n    pdef_.reset();", "    sampledGoalsCount_ = 0;\n    pdef_.reset();")], 'R03h')
 seed('c03-nextstart-no-bounds', 'C03', [(PLNC, "        bool valid = bounds ? si_->isValid(st) : false;\n        if (bounds && valid)\n            return st;", "        bool valid = si_->isValid(st);\n        if (valid)\n            return st;")], 'R03h')
 seed('c03-n-free-reordered', 'C03', [(RRTC, "    si_->freeState(xstate);\n    if (rmotion->state != nullptr)\n        si_->freeState(rmotion->state);\n    delete rmotion;", "    if (rmotion->state != nullptr)\n        si_->freeState(rmotion->state);\n    delete rmotion;\n    si_->freeState(xstate);")], None)
+
+# ---- C01 -------------------------------------------------------------------------------------------------------
+SBLC = 'src/ompl/geometric/planners/sbl/src/SBL.cpp'
+PGC = 'src/ompl/geometric/src/PathGeometric.cpp'
+PRMC2 = 'src/ompl/geometric/planners/prm/src/PRM.cpp'
+seed('c01-rrt-guard-true', 'C01', [(RRTC, "        if (si_->checkMotion(nmotion->state, dstate))\n        {\n            if (addIntermediateStates_)", "        if (true)\n        {\n            if (addIntermediateStates_)")], 'R01a')
+seed('c01-sbl-valid-without-check', 'C01', [(SBLC, "            if (si_->checkMotion(mpath[i]->parent->state, mpath[i]->state))\n                mpath[i]->valid = true;", "            if (mpath[i]->parent != nullptr)\n                mpath[i]->valid = true;")], 'R01b')
+seed('c01-nextstart-no-bounds', 'C01', [(PLNC, "        bool valid = bounds ? si_->isValid(st) : false;\n        if (bounds && valid)\n            return st;", "        bool valid = si_->isValid(st);\n        if (valid)\n            return st;")], 'R01c')
+seed('c01-rrt-approx-flag-false', 'C01', [(RRTC, "        pdef_->addSolutionPath(path, approximate, approxdif, getName());", "        pdef_->addSolutionPath(path, false, approxdif, getName());")], 'R01d')
+seed('c01-check-short', 'C01', [(PGC, "for (int j = 0; result && j < last; ++j)", "for (int j = 0; result && j < last - 1; ++j)")], 'R01f')
+seed('c01-rrt-other-node', 'C01', [(RRTC, "            if (sat)\n            {\n                approxdif = dist;\n                solution = nmotion;", "            if (sat)\n            {\n                approxdif = dist;\n                solution = nmotion->parent;")], 'R01e')
+seed('c01-prm-edge-before-check', 'C01', [(PRMC2, "            if (si_->checkMotion(stateProperty_[n], stateProperty_[m]))\n            {\n                successfulConnectionAttemptsProperty_[m]++;\n                successfulConnectionAttemptsProperty_[n]++;", "            (void)si_->checkMotion(stateProperty_[n], stateProperty_[m]);\n            {\n                successfulConnectionAttemptsProperty_[m]++;\n                successfulConnectionAttemptsProperty_[n]++;")], 'R01a')
+seed('c01-n-guard-in-local', 'C01', [(RRTC, "        if (si_->checkMotion(nmotion->state, dstate))\n        {\n            if (addIntermediateStates_)", "        const bool motionOk = si_->checkMotion(nmotion->state, dstate);\n        if (motionOk)\n        {\n            if (addIntermediateStates_)")], None)
